@@ -153,6 +153,11 @@ func (im *vImporter) importFiles(names []string) (*vImportResult, error) {
 	for len(names) > 0 {
 		vLog.Reset()
 		processed, used, created, upd, rst, add, err := im.b.FromPcap(im.pcapDir, names, im.readers)
+		if err != nil && strings.HasPrefix(names[0], "broken") && processed == 1 && len(created) == 0 {
+			// an upload that is no capture: the manager logs the error and takes it off the queue
+			names = names[1:]
+			continue
+		}
 		if err != nil {
 			return nil, fmt.Errorf("FromPcap(%q): %w", names, err)
 		}
@@ -171,9 +176,20 @@ func (im *vImporter) importFiles(names []string) (*vImportResult, error) {
 			}
 			res.indexFiles++
 		}
-		for dst, src := range map[*map[uint64]bool]*bitmask.LongBitmask{&res.updated: upd, &res.reset: rst, &res.added: add} {
-			for id := range vBits(src) {
-				(*dst)[id] = true
+		// a batch may take several calls (an unreadable upload ends a call early): the classification is
+		// relative to the state before the batch
+		for id := range vBits(add) {
+			res.added[id] = true
+		}
+		for id := range vBits(rst) {
+			if !res.added[id] {
+				res.reset[id] = true
+				delete(res.updated, id)
+			}
+		}
+		for id := range vBits(upd) {
+			if !res.added[id] && !res.reset[id] {
+				res.updated[id] = true
 			}
 		}
 		names = names[processed:]
@@ -501,25 +517,60 @@ type vPlan struct {
 	Cached   []bool  `json:"cached"`   // ... with the known-pcap cache of the state file
 	Interval uint64  `json:"interval"` // packets between reassembly snapshots
 	Quiet    []int   `json:"quiet"`    // > 0: import call i also names a capture without packets (written during a quiet period), at position Quiet[i]-1
+	Broken   []int   `json:"broken"`   // > 0: import call i also names an upload that cannot be read as a capture, at position Broken[i]-1
 }
+
+// uploads that are no captures: text, a cut file header, a file header with a cut packet record
+var vBrokenUploads = [][]byte{[]byte("this is not a capture file\n"), {0xd4, 0xc3, 0xb2, 0xa1, 2, 0, 4, 0, 0, 0},
+	{0xd4, 0xc3, 0xb2, 0xa1, 2, 0, 4, 0, 0, 0, 0, 0, 0, 0, 0, 0, 0, 0, 1, 0, 1, 0, 0, 0, 1, 2, 3}}
 
 // a well-formed capture file without any packet
 var vQuietCapture = []byte{0xd4, 0xc3, 0xb2, 0xa1, 2, 0, 4, 0, 0, 0, 0, 0, 0, 0, 0, 0, 0, 0, 1, 0, 1, 0, 0, 0}
 
-func vQuiet(rt *rapid.T, p *vPlan) {
-	for _, b := range p.Batches {
+func vQuiet(rt *rapid.T, s *vtraffic.Scenario, p *vPlan, steer bool) (steered int) {
+	for bi, b := range p.Batches {
 		q := 0
 		if rapid.IntRange(0, 5).Draw(rt, "quiet capture") == 0 {
-			q = 1 + rapid.IntRange(0, len(b)).Draw(rt, "quiet position")
+			q = 1 + rapid.IntRange(0, len(b)+1).Draw(rt, "quiet position")
 		}
 		p.Quiet = append(p.Quiet, q)
+		br := 0
+		if rapid.IntRange(0, 5).Draw(rt, "broken upload") == 0 {
+			br = 1 + rapid.IntRange(0, len(b)).Draw(rt, "broken position")
+		}
+		// an unreadable upload between two captures ends the import call there: the captures behind it are
+		// imported by a second call. While the finding is open that must not fill a hole of a flow later.
+		if k := br - 1; steer && k > 0 && k < len(b) {
+			eff := &vPlan{Arrival: p.Arrival}
+			for bj, bb := range p.Batches {
+				if bj == bi {
+					eff.Batches = append(eff.Batches, bb[:k:k], bb[k:])
+				} else {
+					eff.Batches = append(eff.Batches, bb)
+				}
+			}
+			if vHoleFilledLater(s, eff) {
+				br = 1
+				steered++
+			}
+		}
+		p.Broken = append(p.Broken, br)
 	}
+	return steered
 }
 
 // vBatchNames are the file names of import call bi; the capture without packets is written on the way.
 func vBatchNames(s *vtraffic.Scenario, plan *vPlan, bi int, pcapDir string) ([]string, error) {
 	names := vNames(s, plan.Batches[bi])
-	if bi < len(plan.Quiet) && plan.Quiet[bi] > 0 {
+	if bi < len(plan.Broken) && plan.Broken[bi] > 0 && os.Getenv("VERIF_C08_NOBROKEN") == "" {
+		bn := fmt.Sprintf("broken%02d.pcap", bi)
+		if err := os.WriteFile(filepath.Join(pcapDir, bn), vBrokenUploads[bi%len(vBrokenUploads)], 0o644); err != nil {
+			return nil, err
+		}
+		at := min(plan.Broken[bi]-1, len(names))
+		names = append(names[:at:at], append([]string{bn}, names[at:]...)...)
+	}
+	if bi < len(plan.Quiet) && plan.Quiet[bi] > 0 && os.Getenv("VERIF_C08_NOQUIET") == "" {
 		qn := fmt.Sprintf("quiet%02d.pcap", bi)
 		if err := os.WriteFile(filepath.Join(pcapDir, qn), vQuietCapture, 0o644); err != nil {
 			return nil, err
@@ -863,7 +914,7 @@ func TestVerifC08(t *testing.T) {
 			c.Count("excluded_known", 1)
 		}
 		vRestarts(rt, plan)
-		vQuiet(rt, plan)
+		c.Count("excluded_known", vQuiet(rt, s, plan, open[vFindingStaleSplit]))
 		plan.Interval = rapid.SampledFrom(vIntervals).Draw(rt, "snapshot interval")
 		c.Render(func() any { return map[string]any{"traffic": s.Render(), "plan": plan} })
 		vTrafficLabels(c, s)
@@ -949,8 +1000,10 @@ func vRunC08(s *vtraffic.Scenario, plan *vPlan, c *vlib.Case) (out vC08Outcome) 
 			return
 		}
 		if c != nil {
-			c.LabelIf(len(names) > len(batch), "import-call-names-capture-without-packets")
-			c.LabelIf(len(names) > len(batch) && bi < len(plan.Batches)-1 && plan.Restart[bi+1], "restart-with-capture-without-packets-in-directory")
+			c.LabelIf(bi < len(plan.Broken) && plan.Broken[bi] > 0, "import-call-names-unreadable-upload")
+			c.LabelIf(bi < len(plan.Broken) && plan.Broken[bi] > 1 && plan.Broken[bi] <= len(batch), "unreadable-upload-between-captures")
+			c.LabelIf(bi < len(plan.Quiet) && plan.Quiet[bi] > 0, "import-call-names-capture-without-packets")
+			c.LabelIf(bi < len(plan.Quiet) && plan.Quiet[bi] > 0 && bi < len(plan.Batches)-1 && plan.Restart[bi+1], "restart-with-capture-without-packets-in-directory")
 		}
 		res, err := im.importFiles(names)
 		if err != nil {
@@ -1056,7 +1109,7 @@ func TestVerifC08Large(t *testing.T) {
 			c.Count("excluded_known", 1)
 		}
 		vRestarts(rt, plan)
-		vQuiet(rt, plan)
+		c.Count("excluded_known", vQuiet(rt, s, plan, open[vFindingStaleSplit]))
 		c.Render(func() any {
 			st := s.Stats()
 			caps := []string{}
